@@ -1,5 +1,5 @@
 (* C05 — Abort stops every later handler and only later handlers. Property theorems only. *)
-From Rux Require Import Base Writer Chain ChainFacts Dispatch Reg RegFacts.
+From Rux Require Import Base Writer Chain ChainFacts ChainMore Dispatch Reg RegFacts.
 Open Scope Z_scope.
 
 (* For every chain of at most 63 handlers that call Next at most once (any other ops, any position):
@@ -42,6 +42,15 @@ Theorem C05_aborted_stable : forall n s, aborted xctx eff s ->
   started_of xctx eff (mrun n s) = started_of xctx eff s /\ ~ is_index_panic xctx eff (mrun n s) /\ aborted xctx eff (mrun n s).
 Proof. exact (no_start_after_abort xctx eff apply_eff note_aborted abort_status). Qed.
 
+(* IsAborted() is false before any abort: in every chain of at most 31 handlers (each calling Next at most once, with
+   IsAborted samples anywhere before or after Next) in which nobody aborts, every sample reads false, the request
+   completes in onion order and every handler starts exactly once. (For longer chains this is false of the code: K1.) *)
+Theorem C05_is_aborted_before : forall (ws : list (wb2 eff)) x0, 2 * Z.of_nat (List.length ws) - 1 < 63 ->
+  exists n c, mrun n (init xctx eff (map (prog2 eff) ws) x0) = Halt c
+    /\ xs c = fold_left (fun x s => apply_sop xctx eff apply_eff note_aborted s x) (onion2 eff ws) x0
+    /\ started c = seq 0 (List.length ws).
+Proof. exact (onion_order_no_abort xctx eff apply_eff note_aborted abort_status). Qed.
+
 (* AbortWithStatus(code) records code exactly like SetStatus(code): by C08 it is the committed status
    unless the header was already committed or a later status is set before the commit *)
 Theorem C05_status : forall code x, w (abort_status code x) = write_header code (w x).
@@ -67,6 +76,7 @@ Print Assumptions C05_suspended_resume.
 Print Assumptions C05_is_aborted_after.
 Print Assumptions C05_abort_makes_aborted.
 Print Assumptions C05_aborted_stable.
+Print Assumptions C05_is_aborted_before.
 Print Assumptions C05_status.
 Print Assumptions C05_limit.
 Print Assumptions C05_is_aborted_refuted.
